@@ -406,7 +406,16 @@ func c06WalkerShape(c *kit.Ctx, m *storeModel, r2 *kit.Rule, w *walker, upf *kit
 				rv = kit.VarID(o)
 			}
 		}
-		return []kit.S{s.Set("iter", "0").Set("rv", rv)}, []kit.S{s.Del("iter").Del("rv")}, true
+		return []kit.S{s.Set("iter", "0").Set("rv", rv).Set("lp", "1")}, []kit.S{s.Del("iter").Del("rv").Set("lp", "1")}, true
+	}
+	// the top-of-tree sentinel test on the ancestor parameter
+	st.Eval.Atom = func(e ast.Expr) (string, bool, bool) {
+		isAnc := func(x ast.Expr) bool { return w.ancestor != nil && kit.ObjOf(info, x) == types.Object(w.ancestor) }
+		isConst := func(x ast.Expr) bool { _, ok := kit.ConstString(info, x); return ok }
+		if neg, ok := eqAtom(e, isAnc, isConst); ok {
+			return "top", neg, true
+		}
+		return "", false, false
 	}
 	res := c.P.Graph(f).Run(kit.NewS(), st.Client())
 	if res.Overflow {
@@ -415,6 +424,11 @@ func c06WalkerShape(c *kit.Ctx, m *storeModel, r2 *kit.Rule, w *walker, upf *kit
 	nopub := ""
 	sawLoopExit := false
 	for _, e := range res.Exits {
+		// a successful return before the loop over the parents is only allowed at
+		// the top-of-tree sentinel
+		if e.Return != nil && e.State.Get("lp") != "1" && st.ReturnsNil(e.Return, e.State) != "nonnil" && e.State.Get("a:top") != "T" {
+			missedIter = "the walker can return success at " + f.At(e.Return) + " before visiting the parents of a non-sentinel ancestor: nothing above this node is told"
+		}
 		if e.State.Get("pub") != "1" {
 			nopub = "an exit at " + f.At(e.Block.Nodes[len(e.Block.Nodes)-1]) + " is reachable before the publish"
 		}
